@@ -41,6 +41,8 @@ EVENT_FORMS = {
     'mp': ('multi', 'hdr', ['a=1']),
     'd': ('data', '', ['r l1', 's l2']),     # NEWCONSENSUS style
     'dp': ('data', 'hdr', ['250 OK', 'l2']),
+    'de': ('data', '', ['', 'x y']),          # the body starts with an (almost) empty line: leading whitespace is payload
+    'ms': ('multi', '', ['  lead', 'b']),     # continuation line that begins with spaces
 }
 REPLY_SHAPES = ['M1', 'D', 'EM']
 
@@ -398,7 +400,7 @@ def check_setevents(env, ctl, viol):
 # families
 
 def route_cases(tier):
-    forms = ['s', 's0', 'm', 'mp', 'd', 'dp']
+    forms = ['s', 's0', 'm', 'mp', 'd', 'dp', 'de', 'ms']
     names = [SUB, UNSUB, UNKNOWN]
     singles = [((n, f),) for n in names for f in forms]
     doubles = [((n1, f1), (n2, f2)) for n1 in names for f1 in forms for n2 in names for f2 in forms
